@@ -898,6 +898,43 @@ func (g *Gen) multiStmt() Stmt {
 		elemT = tStr
 	}
 	if decl {
+		// sometimes the declared names shadow int variables of an enclosing scope and the right-hand side
+		// reads exactly those variables (`lo, hi := [hi, lo + 1]`): the names must not be in scope yet
+		// while the right-hand side is evaluated
+		if g.level >= 1 && g.chance(1, 3) {
+			mine := map[string]bool{}
+			for _, v := range g.sc.vars {
+				mine[v.name] = true
+			}
+			var cands []string
+			for _, v := range g.visible(func(v *gvar) bool { return v.typ == tInt }) {
+				if !mine[v.name] && !g.generating[v.name] {
+					cands = append(cands, v.name)
+				}
+			}
+			if len(cands) >= n {
+				first := g.pick(len(cands))
+				l := &ListLit{}
+				for i := 0; i < n; i++ {
+					names = append(names, cands[(first+i)%len(cands)])
+				}
+				for i := 0; i < n; i++ {
+					var it Expr = &Ident{Name: names[(i+1)%n]}
+					if g.chance(1, 2) {
+						it = &Binary{Op: "+", L: it, R: &IntLit{V: int64(1 + g.pick(9))}}
+					}
+					l.Items = append(l.Items, it)
+				}
+				g.feat("shadowing")
+				g.feat("multi-decl-shadowing-own-rhs")
+				g.feat("multi-decl")
+				st := &MultiDecl{Names: names, X: l, Decl: true}
+				for _, nm := range names {
+					g.declare(&gvar{name: nm, typ: tInt})
+				}
+				return st
+			}
+		}
 		for i := 0; i < n; i++ {
 			nm := g.fresh("m")
 			names = append(names, nm)
